@@ -52,7 +52,7 @@ def gen_poly(rng, quick=True, max_rows=None, max_cols=None, wide=False):
     out = {"bnds": bnds, "rows": rows}
     r = rng.random()
     if r < 0.3:
-        out["first"] = rng.choice(["bool0", "bool0", "int0", "named"])
+        out["first"] = rng.choice(["bool0", "bool0", "int0", "named", "fixed3", "fixed0", "fixedneg", "open"])
     return out
 
 
@@ -125,7 +125,9 @@ def real_poly(p, ids=None, dtype=None):
     # how the caller declares the variable of the support (constant) column: it is not a decision variable, and its
     # declaration must not influence anything computed about the columns of A
     first = {"bool0": lambda: puan.variable("0"), "int0": lambda: puan.variable(0, dtype="int"),
-             "named": lambda: puan.variable("b", (1, 1))}.get(p.get("first"), puan.variable.support_vector_variable)()
+             "named": lambda: puan.variable("b", (1, 1)), "fixed3": lambda: puan.variable("b", (3, 3)),
+             "fixed0": lambda: puan.variable("b", (0, 0)), "fixedneg": lambda: puan.variable("b", (-1, -1)),
+             "open": lambda: puan.variable("b", (0, 5))}.get(p.get("first"), puan.variable.support_vector_variable)()
     vs = [first] + [puan.variable(i, tuple(b)) for i, b in zip(ids, p["bnds"])]
     arr = np.array([[r[0]] + list(r[1]) for r in p["rows"]], dtype=np.int64).reshape(len(p["rows"]), nc + 1)
     if dtype is not None:
